@@ -100,6 +100,8 @@ def _frames_or_early(key, call, hello):
                              st.text(min_size=1, max_size=10), st.text(alphabet='sérvice€\U0001F600', min_size=1, max_size=6)),
       'props': st.lists(st.tuples(key, CTX_TEXT).map(list), max_size=4, unique_by=lambda kv: kv[0]),
       'timeout_ms': st.sampled_from([None, 50, 80, 1000, 10000]),
+      # while a call that the peer never answers is pending, another (answered) call goes out on the connection
+      'bystander': st.booleans(),
       'calls': st.lists(weighted((2, call), (1, hello)), min_size=1, max_size=4),
   }).map(_fix_svc)
 
@@ -182,6 +184,9 @@ def _exec_frames(plan):
 
   def script(k, frame, method, args):
     b = calls[cur['i']]['behave']
+    if cur.get('bystander'):
+      cur['bystander'] = False
+      return ['reply', 0.002]
     return ['never'] if b == 'never' else ['reply', 0.002]
 
   iface, pf = (Rich.Iface, Rich.Processor) if plan['svc'] == 'rich' else (Hello.Iface, Hello.Processor)
@@ -219,10 +224,23 @@ def _exec_frames(plan):
     else:
       ar = disp.DispatchMethodCall(m, tuple(args), {})
     never = c['behave'] == 'never'
+    ar_by = None
+    if never and timeout and plan.get('bystander'):
+      advance(0.004)
+      cur['bystander'] = True
+      ar_by = disp.DispatchMethodCall(m, tuple(args), {})
+      nt.add('another call written while the unanswered one is pending')
     advance(0.03 if not (never and timeout) else timeout + 0.03)
     where = 'call %d %s [client_id=%r props=%r]' % (i, m, plan['client_id'], plan['props'])
     new = peer.frames[n_before:]
     disp_frames = [f for f in new if f['type'] == M.T_DISPATCH]
+    by_frame = None
+    if ar_by is not None:
+      if len(disp_frames) != 2:
+        raise Violation(ID, 'frame-count', '%s and a second call: %d Tdispatch frames' % (where, len(disp_frames)))
+      by_frame = disp_frames.pop()
+      if not ar_by.ready():
+        raise Violation(ID, 'no-completion', '%s: the answered call issued after it (tag %d) did not complete' % (where, by_frame['tag']))
     if peer.bad or peer.leftover():
       raise Violation(ID, 'bad-framing', '%s: undecodable frame / trailing bytes: %r %r' % (where, peer.bad, peer.leftover()))
     if len(disp_frames) != 1:
@@ -270,7 +288,7 @@ def _exec_frames(plan):
       nt.add('tag>=2^16')
     # other frames
     for o in new:
-      if o is f:
+      if o is f or o is by_frame:
         continue
       if o['type'] == M.T_PING:
         if o['tag'] != 1 or o['body']:
